@@ -31,8 +31,8 @@ func (l *c08log) add(name string, args ...interface{}) {
 
 type c08svc struct{ log *c08log }
 
-func (s c08svc) Nop()                              { s.log.add("nop") }
-func (s c08svc) Inc(x int) int                     { s.log.add("inc", x); return x + 1 }
+func (s c08svc) Nop()                               { s.log.add("nop") }
+func (s c08svc) Inc(x int) int                      { s.log.add("inc", x); return x + 1 }
 func (s c08svc) Pair(a int, b string) (string, int) { s.log.add("pair", a, b); return b + "!", a * 2 }
 func (s c08svc) Sum(xs ...int) int {
 	s.log.add("sum", xs)
@@ -116,7 +116,10 @@ func (s c08svc) Three(x int) (int, string, float64) {
 	s.log.add("three", x)
 	return x, fmt.Sprint(x), float64(x) / 2
 }
-func (s c08svc) Big(str string, n int) string { s.log.add("big", len(str), n); return strings.Repeat(str, n) }
+func (s c08svc) Big(str string, n int) string {
+	s.log.add("big", len(str), n)
+	return strings.Repeat(str, n)
+}
 
 type c08proxy struct {
 	Nop    func() error
